@@ -21,6 +21,32 @@ fn exh_new(depth: usize, advances: &'static [u64], modifies: bool, toggle: bool,
     e
 }
 
+/// Mass sweeps for C01 / C02 / C05 (see extra.rs): returns (resting orders swept, violations)
+pub fn mass_sweeps(ctx: &Ctx, prop: &str, sizes: &[usize], tied: bool, only: &[&str]) -> (u64, Vec<crate::report::Violation>) {
+    use std::sync::Mutex;
+    let acc: Mutex<(u64, Vec<crate::report::Violation>)> = Mutex::new((0, Vec::new()));
+    std::thread::scope(|s| {
+        for (k, n) in sizes.iter().enumerate() {
+            let acc = &acc;
+            s.spawn(move || {
+                crate::util::install_quiet_panic_hook();
+                let seed = crate::util::Sm::derive(ctx.seed, 0x5357_00 + k as u64).next();
+                let r = crate::util::catch(|| crate::extra::mass_sweep::<bourse_book::OrderBook<5>>(seed, *n, tied)).unwrap_or_else(|p| Err(("panic_in_sweep".into(), p)));
+                let mut a = acc.lock().unwrap();
+                match r {
+                    Ok(x) => a.0 += x,
+                    Err((kind, detail)) => {
+                        if kind != "harness" && (only.is_empty() || only.contains(&kind.as_str()) || kind == "panic_in_sweep") {
+                            a.1.push(crate::report::Violation { signature: format!("{}:sweep:{}", prop, kind), summary: format!("mass sweep of {} resting orders ({}): {} - {}", n, if tied { "all queued at one time-stamp" } else { "one clock tick apart" }, kind, truncate(&detail, 500)), replay: json!({"kind": "mass_sweep", "property": prop, "seed": seed, "n": n, "tied": tied}) });
+                        }
+                    }
+                }
+            });
+        }
+    });
+    acc.into_inner().unwrap()
+}
+
 pub fn valid_history_assumptions() -> Vec<String> {
     vec![
         "valid histories only: ids refer to existing orders, order and modify volumes >= 1, limit prices on the tick grid and strictly between 0 and 2^32-1, per-side resting volume and cumulative traded volume < 2^32, clock never moved backwards (enforced by the generators)".into(),
@@ -94,9 +120,12 @@ pub fn c01(ctx: &Ctx) -> i32 {
         acc.into_inner().unwrap()
     };
     out.violations.extend(long.5);
+    let (swept, sv) = mass_sweeps(ctx, "C01", if ctx.tier == Tier::Quick { &[1500, 3000, 70_000] } else { &[1500, 3000, 70_000, 150_000, 300_000] }, false, &[]);
+    out.violations.extend(sv);
     let c = &out.census;
     let inconclusive = floors(&[
         ("long_history_orders_max", long.4, 65_537),
+        ("resting_orders_swept_by_single_aggressors", swept, 70_000),
         ("long_history_checkpoints", long.3, 100),
         ("trades", c.trades, 1000),
         ("partial_fills_passive", c.partial_fills_passive, 100),
@@ -110,6 +139,7 @@ pub fn c01(ctx: &Ctx) -> i32 {
     ]);
     let cov = book_coverage(&spec, &out, "Judged after every operation: order records, trade records, creation results, clock and (hook H2) the complete queue order of both sides, against the reference engine; tied histories are cut at the first tie insertion and left to C05.");
     let mut cov = cov;
+    cov["mass_sweeps"] = json!({"resting_orders_swept_by_single_aggressors": swept, "largest_sweep": if ctx.tier == Tier::Quick { 70_000 } else { 300_000 }});
     cov["long_histories"] = json!({"histories": n_long, "operations_each": long_ops, "operations": long.0, "orders": long.1, "trades": long.2, "checkpoints_compared_with_the_reference": long.3, "largest_number_of_orders_in_one_book": long.4});
     ctx.finish("exploration", cov, valid_history_assumptions(), out.violations, inconclusive)
 }
@@ -228,8 +258,12 @@ pub fn c02(ctx: &Ctx) -> i32 {
             levels_seen.push(l);
         }
     }
+    // single aggressors against thousands of resting orders: nothing may be left crossed, views follow the order list
+    let (swept, sv) = mass_sweeps(ctx, "C02", if ctx.tier == Tier::Quick { &[1100, 2500, 66_000] } else { &[1100, 2500, 66_000, 200_000] }, false, &["views_after_sweep", "crossed_book", "sweep_incomplete"]);
+    out.violations.extend(sv);
     let c = &out.census;
     let inconclusive = floors(&[
+        ("resting_orders_swept_by_single_aggressors", swept, 60_000),
         ("all_level_counts_states", all_levels_states, 100_000),
         ("states_checked", c.states_checked, 100_000),
         ("crossed_states", c.crossed_states, 50),
